@@ -437,6 +437,56 @@ func runCapabilities(c *mc.Ctx, r *mc.Result) {
 			}
 		}
 	}
+	// String: every format of <=3 tokens over literals, %%, and verbs x operand lists (exact, none,
+	// one too many); the bytes sent are by definition fmt.Sprintf(format, operands...)
+	toks := []string{"x", "%%", "%s", "%d", "%v", "%q", "100%", "\n"}
+	var fmts []string
+	var genf func(cur string, n int)
+	genf = func(cur string, n int) {
+		fmts = append(fmts, cur)
+		if n == 3 {
+			return
+		}
+		for _, t := range toks {
+			genf(cur+t, n+1)
+		}
+	}
+	genf("", 0)
+	for _, f := range fmts {
+		verbs := strings.Count(strings.ReplaceAll(f, "%%", ""), "%")
+		for _, nops := range []int{0, verbs, verbs + 1} {
+			if nops < 0 || (nops == verbs && verbs == 0 && nops != 0) {
+				continue
+			}
+			var ops []any
+			for i := 0; i < nops; i++ {
+				if i%2 == 0 {
+					ops = append(ops, "s\"v")
+				} else {
+					ops = append(ops, 42)
+				}
+			}
+			want := fmt.Sprintf(f, ops...)
+			rw := fx.NewRW()
+			ctx := fox.NewTestContextOnly(rw, fx.Req("GET", "", "/"))
+			err := ctx.String(201, f, ops...)
+			r.Evaluations++
+			if err != nil || rw.Code != 201 || string(rw.Body) != want || ctx.Writer().Size() != len(want) {
+				r.Violate("capabilities", "helper", fmt.Sprintf("String(201, %q, %d operands): err=%v status=%d body=%q size=%d, want body %q", f, nops, err, rw.Code, rw.Body, ctx.Writer().Size(), want), "String")
+			}
+		}
+	}
+	// Stream from a source failing after k bytes: the error is returned, the bytes read so far are sent
+	for _, k := range []int{0, 1, 5} {
+		rw := fx.NewRW()
+		ctx := fox.NewTestContextOnly(rw, fx.Req("GET", "", "/"))
+		src := &failingReader{data: []byte(strings.Repeat("y", k+3)), fail: k}
+		err := ctx.Stream(202, "application/x-test", src)
+		r.Evaluations++
+		if err == nil || rw.Code != 202 || len(rw.Body) != k || ctx.Writer().Size() != k || rw.H.Get("Content-Type") != "application/x-test" {
+			r.Violate("capabilities", "helper", fmt.Sprintf("Stream(202) from a source failing after %d bytes: err=%v status=%d body=%d bytes size=%d content-type=%q", k, err, rw.Code, len(rw.Body), ctx.Writer().Size(), rw.H.Get("Content-Type")), "Stream")
+		}
+	}
 	for code := 0; code <= 999; code++ {
 		rw := fx.NewRW()
 		ctx := fox.NewTestContextOnly(rw, fx.Req("GET", "", "/"))
